@@ -83,6 +83,8 @@ pub struct Scen {
     sigmas: Mutex<Vec<f64>>,
     all_unique: AtomicBool,
     llr2: Mutex<(u64, f64)>,
+    /// digest of the noise of the first frame seen on each worker thread (independence between workers)
+    first_noise: Mutex<HashMap<std::thread::ThreadId, u64>>,
     desc: String,
 }
 
@@ -283,6 +285,18 @@ impl LdpcDecoder for TapDecoder {
                 if s.high_snr && ((llrs[pos] <= 0.0) as u8) != pc[j] {
                     s.violation("noise aside, the sign of an LLR is not the transmitted codeword bit", J::obj().set("codeword_position", pos).set("llr", llrs[pos]).set("bit", pc[j]));
                     return fallback(llrs.len());
+                }
+            }
+            // independence between workers: the first frame's noise of every worker thread must be different
+            {
+                let mut fnz = s.first_noise.lock().unwrap();
+                let tid = std::thread::current().id();
+                if !fnz.contains_key(&tid) {
+                    let mut d = Dig::new();
+                    for i in 0..tx.len() {
+                        d.f(rx[i].0 - tx[i].0).f(rx[i].1 - tx[i].1);
+                    }
+                    fnz.insert(tid, d.get());
                 }
             }
             // noise samples
@@ -503,6 +517,7 @@ fn run_config(l: &mut Local, cfg: &Config, modtap: bool, ebn0s: &[f32], frames_g
         sigmas: Mutex::new(Vec::new()),
         all_unique: AtomicBool::new(true),
         llr2: Mutex::new((0, 0.0)),
+        first_noise: Mutex::new(HashMap::new()),
         desc: desc.clone(),
     });
     *SCEN.write().unwrap() = Some(sc.clone());
@@ -612,6 +627,21 @@ fn run_config(l: &mut Local, cfg: &Config, modtap: bool, ebn0s: &[f32], frames_g
                 break;
             }
         }
+        // independence between workers (a generator seeded identically in every worker would pass all pooled tests)
+        {
+            let fnz = sc.first_noise.lock().unwrap();
+            let mut seen: HashMap<u64, usize> = HashMap::new();
+            for v in fnz.values() {
+                *seen.entry(*v).or_insert(0) += 1;
+            }
+            l.max("worker_threads_with_distinct_first_noise", seen.len() as f64);
+            if let Some((_, n)) = seen.iter().find(|(_, n)| **n > 1) {
+                l.violation(
+                    "channel noise: different worker threads receive the identical noise sequence (not independent between workers)",
+                    det().set("workers_sharing_one_sequence", *n).set("worker_threads", fnz.len()),
+                );
+            }
+        }
         // statistical tests on the recorded noise
         let accs = sc.acc.lock().unwrap().clone();
         for (sb, a) in accs {
@@ -690,7 +720,7 @@ fn run_config(l: &mut Local, cfg: &Config, modtap: bool, ebn0s: &[f32], frames_g
 }
 
 pub fn run(run: &mut Run) {
-    run.rule = "real BerTest engine with (a) a decoder tap injected through BerTestBuilder (real BPSK/8PSK, Eb/N0 40 dB and, for BPSK, 6 dB) and (b) a modulation tap TapMod<M> + decoder tap through BerTest::new (Eb/N0 40, 3 and 8 dB); codes: RA 12x24, 6x12, dense-tail 9x15, PEG 30x60 (made systematic), RA 15x35, RA 28x63; puncturing none / tail block / information block / two blocks with pattern lengths 3..9 dividing n_cw (incl. 6-of-7 and 8-of-9 whose ratio is not exact in floating point); interleaver none or +-{2,3,4,6} dividing n; EVERY frame of EVERY worker is checked on the worker thread: length, exact +0.0 at punctured positions, bits given to the modulator = interleave(puncture(c)) for a codeword c (harness' own inverse permutation, punctured part completed by solving H), decoder LLR at every kept position bit-identical to the demodulator's LLR of that bit, signs at 40 dB, sigma = sqrt(0.5/(rate*bps*EbN0)) to 1e-12, systematic codeword (engine's own bit-error count), n/n_cw/k/rate; noise = received - modulated: mean, variance, 4th moment, lag-1, I/Q correlation, I/Q variance equality, and per-symbol-position variance/mean, all at z = 6.5; non-trivial = configuration with puncturing or interleaving".into();
+    run.rule = "real BerTest engine with (a) a decoder tap injected through BerTestBuilder (real BPSK/8PSK, Eb/N0 40 dB and, for BPSK, 6 dB) and (b) a modulation tap TapMod<M> + decoder tap through BerTest::new (Eb/N0 40, 3 and 8 dB); codes: RA 12x24, 6x12, dense-tail 9x15, PEG 30x60 (made systematic), RA 15x35, RA 28x63; puncturing none / tail block / information block / two blocks with pattern lengths 3..9 dividing n_cw (incl. 6-of-7 and 8-of-9 whose ratio is not exact in floating point); interleaver none or +-{2,3,4,6} dividing n; EVERY frame of EVERY worker is checked on the worker thread: length, exact +0.0 at punctured positions, bits given to the modulator = interleave(puncture(c)) for a codeword c (harness' own inverse permutation, punctured part completed by solving H), decoder LLR at every kept position bit-identical to the demodulator's LLR of that bit, signs at 40 dB, sigma = sqrt(0.5/(rate*bps*EbN0)) to 1e-12, systematic codeword (engine's own bit-error count), n/n_cw/k/rate; noise = received - modulated: mean, variance, 4th moment, lag-1, I/Q correlation, I/Q variance equality, per-symbol-position variance/mean, all at z = 6.5, and the first frame's noise vector must differ between all worker threads; non-trivial = configuration with puncturing or interleaving".into();
     run.assumptions = vec![
         "statistical tests use z = 6.5 (two-sided tail 8e-11 per test); with a few thousand tests per run the false-alarm probability is below 1e-6 per run".into(),
         "expected bits per symbol come from the harness (BPSK 1, 8PSK 3), not from the library constant".into(),
